@@ -1,1 +1,6 @@
 import DPProofs.Lemmas.Date
+import DPProofs.Lemmas.Parser
+import DPProofs.Lemmas.Render
+import DPProofs.C08
+import DPProofs.C10
+import DPProofs.C07
